@@ -55,10 +55,11 @@ class DeviceMonitor:
         def _notify_placeholder_change(self_inner, attribute_name, old, value):
             if old != value:
                 self_inner.machine.device_manager.notify_device_changes(self_inner, attribute_name, old, value)
-                for future in cls.attribute_futures[self_inner][attribute_name]:
+                # use the futures of the most derived monitored class (subscribe_attribute stores them there)
+                for future in self_inner.attribute_futures[self_inner][attribute_name]:
                     if not future.done():
                         future.set_result(True)
-                cls.attribute_futures[self_inner][attribute_name] = []
+                self_inner.attribute_futures[self_inner][attribute_name] = []
 
         def get_monitorable_state(self_inner):
             """Return monitorable state of device."""
@@ -75,7 +76,7 @@ class DeviceMonitor:
             """Subscribe to an attribute."""
             del machine
             future = asyncio.Future()
-            cls.attribute_futures[self_inner][item].append(future)
+            self_inner.attribute_futures[self_inner][item].append(future)
             return future
 
         def get_placeholder_value(self_inner, item):
